@@ -35,6 +35,20 @@ func rulePart(g *gen.Grammar, site int) []string {
 	if r == nil {
 		return nil
 	}
+	if site >= 1 && site <= len(g.Sites) && g.Sites[site-1].InRecovery {
+		// a recovery expression runs in place of the throw, i.e. while the rule
+		// that threw is being parsed; "the rule in which it arose" can be read
+		// either way, so any rule of the grammar is accepted here
+		var all []string
+		for _, rr := range g.Rules {
+			if rr.Display != "" {
+				all = append(all, "rule "+rr.Display, fmt.Sprintf("rule %q", rr.Display))
+			} else {
+				all = append(all, "rule "+rr.Name)
+			}
+		}
+		return all
+	}
 	if r.Display != "" {
 		return []string{"rule " + r.Display, fmt.Sprintf("rule %q", r.Display)}
 	}
